@@ -64,7 +64,7 @@ pub struct Case {
     pub ty: usize,
     pub dims: (u8, u8),
     pub sp: Sp,
-    /// offset in floats (-3..=3) from the special point
+    /// offset in floats (-3..=3) from the special point; 4 = negative zero
     pub off: i8,
     pub parts: Vec<f64>,
     pub parts2: Vec<f64>,
@@ -75,6 +75,10 @@ pub struct Case {
 fn step(x: f64, k: i8, is32: bool) -> f64 {
     if k == 0 {
         return x;
+    }
+    // offset 4: the negative zero (at special points other than 0: the point itself)
+    if k == 4 {
+        return if x == 0.0 { -0.0 } else { x };
     }
     if is32 {
         let mut v = x as f32;
@@ -311,7 +315,7 @@ pub fn bessel_type_ok(ty: usize) -> bool {
 }
 
 fn run_case(case: &Case, st: &mut Stats) -> Verdict {
-    let dims = [case.dims.0 as usize, case.dims.1 as usize];
+    let dims = [case.dims.0 as usize % 7, case.dims.1 as usize % 7];
     st.class(&format!("{:?}", case.sp).split('(').next().unwrap_or("?").to_string());
     if let Sp::Bessel(..) = case.sp {
         if !bessel_type_ok(case.ty) {
@@ -328,7 +332,7 @@ impl Property for C10 {
     fn strategy(_tier: Tier) -> BoxedStrategy<Case> {
         let tb = table();
         let n = tb.len();
-        ((0..TYPES.len(), dims_strategy(), 0..n, -3i8..=3), (parts_pool(), parts_pool(), presence()))
+        ((0..TYPES.len(), dims_strategy(), 0..n, -3i8..=4), (parts_pool(), parts_pool(), presence()))
             .prop_map(move |((mut ty, dims, sp, off), (parts, parts2, (pres, zero)))| {
                 let sp = tb[sp];
                 if let Sp::Bessel(..) = sp {
@@ -341,7 +345,7 @@ impl Property for C10 {
             .boxed()
     }
     fn check(case: &Case, st: &mut Stats) -> Verdict {
-        if case.ty >= TYPES.len() || case.parts.is_empty() || case.parts2.is_empty() || case.pres.is_empty() || case.zero.is_empty() || case.off.abs() > 3 {
+        if case.ty >= TYPES.len() || case.parts.is_empty() || case.parts2.is_empty() || case.pres.is_empty() || case.zero.is_empty() || case.off < -3 || case.off > 4 {
             return Verdict::Trivial("malformed case");
         }
         let okidx = match case.sp {
@@ -372,7 +376,7 @@ impl Property for C10 {
                 if matches!(sp, Sp::Bessel(..)) && !bessel_type_ok(ty) {
                     continue;
                 }
-                for off in -3i8..=3 {
+                for off in -3i8..=4 {
                     let case = Case { ty, dims: (2, 2), sp, off, parts: parts.clone(), parts2: parts2.clone(), pres: vec![true], zero: vec![false] };
                     let mut tmp = Stats::new();
                     tmp.frozen = true;
@@ -403,7 +407,7 @@ impl Property for C10 {
         }
     }
     fn rule() -> String {
-        "the finite table of (function, special point) pairs - powi(n>=0) and integer-valued powf at 0, powf(order+frac) at 0 for the smallest non-integer exponents above the order of the type, sph_j0/1/2 at 0, +-eps, +-1, bessel_j0/1/2 at 0, +-1e-5, +-1, +-5, atan2 on either axis (both signs), exp_m1 and ln_1p at 0 - each with offsets of -3..+3 floats (denormals next to 0), is ENUMERATED COMPLETELY per run on all scalar and nested static types (counter exhaustive_table_points) and sampled with generated parts/presence patterns on every registered type. Oracle: exact Taylor data at the special point through the reference algebra; verdict = every part finite AND within 32 u e (bessel: the C14 schedule). Non-trivial: lower-order operand parts are non-zero so that the highest-order part mixes them.".into()
+        "the finite table of (function, special point) pairs - powi(n>=0) and integer-valued powf at 0, powf(order+frac) at 0 for the smallest non-integer exponents above the order of the type, sph_j0/1/2 at 0, +-eps, +-1, bessel_j0/1/2 at 0, +-1e-5, +-1, +-5, atan2 on either axis (both signs), exp_m1 and ln_1p at 0 - each with offsets of -3..+3 floats (denormals next to 0) and, at 0, the negative zero -0.0, is ENUMERATED COMPLETELY per run on all scalar and nested static types (counter exhaustive_table_points) and sampled with generated parts/presence patterns on every registered type. Oracle: exact Taylor data at the special point through the reference algebra; verdict = every part finite AND within 32 u e (bessel: the C14 schedule). Non-trivial: lower-order operand parts are non-zero so that the highest-order part mixes them.".into()
     }
     fn assumptions() -> Vec<String> {
         vec!["results below 1e-270 (f64) / 1e-30 (f32) in magnitude are compared with an absolute floor (gradual underflow)".into()]
